@@ -563,7 +563,7 @@ Definition frame_wf (max : N) (f : frame) : bool :=
       sid_ok last && u32_ok code && (8 + lenN debug <=? max) && bytes_ok debug    (* nobody checks the size *)
   | FWindowUpdate sid inc =>
       sid_ok sid && (0 <? inc) && (inc <? 2147483648)             (* peers reject 0; bit 31 is reserved *)
-  | FReset sid code => sid_ok sid && u32_ok code
+  | FReset sid code => sid_ok sid && negb (sid =? 0) && u32_ok code     (* callers reset real streams only *)
   | FPriority _ _ => false                                         (* cannot be sent *)
   end.
 
